@@ -130,8 +130,30 @@ pub async fn run_script(script: &Script, progress_path: Option<&str>) -> Result<
     let t = topic_of(script.seed);
     let mut log = vec![];
     let mut progress = Progress::default();
-    let node = spawn_node(script).await?;
-    let (publisher, mut sub) = node.stream_from::<String>(t, StreamFrom::Frontier).await.map_err(|e| e.to_string())?;
+    let mut started = None;
+    let mut last = String::new();
+    for attempt in 0..START_ATTEMPTS {
+        let node = match spawn_node(script).await {
+            Ok(n) => n,
+            Err(e) => {
+                last = format!("START: {e}");
+                tokio::time::sleep(Duration::from_millis(300 * (attempt + 1))).await;
+                continue;
+            }
+        };
+        match node.stream_from::<String>(t, StreamFrom::Frontier).await {
+            Ok((p, s)) => {
+                started = Some((node, p, s));
+                break;
+            }
+            Err(e) => {
+                last = format!("START: {e}");
+                drop(node);
+                tokio::time::sleep(Duration::from_millis(300 * (attempt + 1))).await;
+            }
+        }
+    }
+    let Some((_node, publisher, mut sub)) = started else { return Err(last) };
     if let Some((name, nth)) = &script.crash_point {
         p2panda_core::verif::arm_crash_point(name, *nth);
     }
@@ -230,17 +252,28 @@ async fn restart_and_replay(script: &Script, expect_some: bool) -> Result<(Vec<S
     // ("Messaging failed because channel is closed"); that is infrastructure, not the property:
     // a start failure is retried on a fresh node, only a persistent one is reported.
     let mut last = String::new();
-    for _attempt in 0..4 {
+    for attempt in 0..START_ATTEMPTS {
         match restart_and_replay_once(script, expect_some).await {
             Ok(r) => return Ok(r),
             Err(e) if e.starts_with("START:") => {
                 last = e;
-                tokio::time::sleep(Duration::from_millis(200)).await;
+                tokio::time::sleep(Duration::from_millis(300 * (attempt + 1))).await;
             }
             Err(e) => return Err(e),
         }
     }
     Err(last)
+}
+
+/// How often a node start (spawn + `stream_from`) is attempted before the failure is reported.
+const START_ATTEMPTS: u64 = 8;
+
+/// `Node::stream_from` documents `CreateStreamError` ("error occurred in internal actor: ...") as
+/// transient: an actor of the network stack crashed or has not come up and the caller may try
+/// again. On an overloaded machine that state can outlast all our attempts; it says nothing about
+/// what would be replayed, so such a restart is inconclusive, not a violation.
+fn is_actor_start_failure(e: &str) -> bool {
+    e.starts_with("START:") && e.contains("error occurred in internal actor")
 }
 
 async fn restart_and_replay_once(script: &Script, expect_some: bool) -> Result<(Vec<String>, bool), String> {
@@ -283,6 +316,11 @@ impl Property for C15Prop {
             Tier::Quick => Budget { runs: 32, wall_cap_s: 30 },
             Tier::Thorough => Budget { runs: 640, wall_cap_s: 380 },
         }
+    }
+    fn run_limit_s(&self) -> u64 {
+        // Up to six crash points per run, each with three real node starts and bounded real-time
+        // waits; on an overloaded machine one start alone takes seconds.
+        900
     }
     fn modes(&self) -> u32 {
         4
@@ -401,6 +439,12 @@ impl Property for C15Prop {
                         ev!("crash after step {crash_after}: {}", log.join("; "));
                         p
                     }
+                    Ok(Err(e)) if is_actor_start_failure(&e) => {
+                        ctx::probe("inconclusive_node_start_failed");
+                        ev!("inconclusive: the node did not start in {START_ATTEMPTS} attempts ({e})");
+                        cleanup();
+                        return;
+                    }
                     Ok(Err(e)) => {
                         violation("node-api-failed", "fault-free script", e);
                         cleanup();
@@ -482,6 +526,10 @@ impl Property for C15Prop {
                             violation("second-restart-replays-different-set", &site, format!("nothing was acknowledged after the first restart, yet the second restart replayed [{}] instead of [{}] (first restart: [{}])", short(&s), short(&e2), short(&replayed)));
                         }
                     }
+                }
+                Ok(Err(e)) if is_actor_start_failure(&e) => {
+                    ctx::probe("inconclusive_node_start_failed");
+                    ev!("inconclusive: the node did not restart in {START_ATTEMPTS} attempts ({e})");
                 }
                 Ok(Err(e)) => {
                     violation("restart-failed", &site, e);
